@@ -48,11 +48,18 @@ fn conc_part(ctx: &mut Ctx, part: &str, procs: bool, total: u64, reps: u16) {
         // not bit-reproducible: the same programs and seed, up to 20 executions
         for _ in 0..20 {
             let mut obs = Obs::default();
-            let r = Ctx::guarded(|| conc::run(&case, &mut obs));
+            let r = Ctx::guarded(|| conc::run(&case, &mut obs, &|s| ctx.is_open_finding(s)));
             ctx.record(part, 0, &obs, || serde_json::to_value(&case).unwrap());
-            if let Err(f) = r {
-                ctx.violation(part, &f, serde_json::to_value(&case).unwrap());
-                break;
+            match r {
+                Ok(tolerated) => {
+                    for f in tolerated {
+                        ctx.violation(part, &f, serde_json::to_value(&case).unwrap());
+                    }
+                }
+                Err(f) => {
+                    ctx.violation(part, &f, serde_json::to_value(&case).unwrap());
+                    break;
+                }
             }
         }
         return;
@@ -61,17 +68,76 @@ fn conc_part(ctx: &mut Ctx, part: &str, procs: bool, total: u64, reps: u16) {
     for _ in 0..ctx.share(total) {
         let case = conc::random_case(&mut rng, procs, reps);
         let mut obs = Obs::default();
-        let r = Ctx::guarded(|| conc::run(&case, &mut obs));
+        let r = Ctx::guarded(|| conc::run(&case, &mut obs, &|s| ctx.is_open_finding(s)));
         let key = hash_str(&serde_json::to_string(&case).unwrap());
         ctx.record(part, key, &obs, || serde_json::to_value(&case).unwrap());
-        if let Err(f) = r {
-            let before = ctx.violation_count();
-            ctx.violation(part, &f, serde_json::to_value(&case).unwrap());
-            if ctx.violation_count() > before {
-                break;
+        match r {
+            Ok(tolerated) => {
+                for f in tolerated {
+                    ctx.violation(part, &f, serde_json::to_value(&case).unwrap());
+                }
+            }
+            Err(f) => {
+                let before = ctx.violation_count();
+                ctx.violation(part, &f, serde_json::to_value(&case).unwrap());
+                if ctx.violation_count() > before {
+                    break;
+                }
             }
         }
     }
+}
+
+/// Root cause probe of the known finding `conc.double_destruction...`: iceoryx2 treats
+/// `ReleaseState::Locked` of `Container::remove(handle, LockIfLastIndex)` as "this node was the
+/// last owner". Two owners that release the last two entries at the same time both get `Locked`.
+fn dereg_probe(ctx: &mut Ctx) {
+    use iceoryx2_bb_lock_free::mpmc::container::{FixedSizeContainer, OwnerId};
+    use iceoryx2_bb_lock_free::mpmc::unique_index_set_enums::{ReleaseMode, ReleaseState};
+    use std::sync::atomic::{AtomicU32, Ordering};
+    const PART: &str = "dereg.probe";
+    if !ctx.part_enabled(PART) || ctx.replay.is_some() {
+        return;
+    }
+    let iterations = ctx.share(ctx.scale(3_000, 60_000));
+    let mut rng = ctx.rng(PART);
+    let mut both = 0u64;
+    for _ in 0..iterations {
+        let c = FixedSizeContainer::<u64, 4>::new();
+        let h1 = c.add(1, OwnerId::new(1).unwrap()).expect("space").1;
+        let h2 = c.add(2, OwnerId::new(2).unwrap()).expect("space").1;
+        let ready = AtomicU32::new(0);
+        let (s1, s2) = (rng.next(), rng.next());
+        let run = |h, seed: u64| {
+            ready.fetch_add(1, Ordering::SeqCst);
+            while ready.load(Ordering::SeqCst) < 2 {
+                std::hint::spin_loop();
+            }
+            conc::noise_on(seed);
+            let r = unsafe { c.remove(h, ReleaseMode::LockIfLastIndex) };
+            conc::noise_off();
+            r
+        };
+        let (r1, r2) = std::thread::scope(|s| {
+            let a = s.spawn(|| run(h1, s1));
+            let b = s.spawn(|| run(h2, s2));
+            (a.join().unwrap(), b.join().unwrap())
+        });
+        if r1 == Ok(ReleaseState::Locked) && r2 == Ok(ReleaseState::Locked) {
+            both += 1;
+        }
+    }
+    let mut obs = Obs::default();
+    obs.nontrivial = true;
+    obs.class(if both > 0 { "dereg/both_releasers_saw_locked" } else { "dereg/race_not_hit" });
+    let case = vcore::json!({"iterations": iterations, "both_locked": both});
+    ctx.record(PART, ctx.worker as u64, &obs, || case.clone());
+    ctx.probe_finding(
+        PART,
+        conc::DOUBLE_DESTRUCTION,
+        if both > 0 { Some(format!("{both} of {iterations} concurrent releases of the last two container entries with LockIfLastIndex returned ReleaseState::Locked to BOTH releasers; DynamicConfig::deregister_node_id maps Locked to NoMoreOwners, so both nodes destroy the service")) } else { None },
+        case,
+    );
 }
 
 fn body(ctx: &mut Ctx) {
@@ -86,6 +152,7 @@ fn body(ctx: &mut Ctx) {
     let (ipc_every, ooc_every) = (ctx.scale(2, 1), ctx.scale(3, 1));
     ctx.enumerate("pairs", "product of one-setting creator variants x one-requirement opener variants, 4 patterns", pairs::cases(ipc_every, ooc_every).into_iter(), |c, obs| pairs::run(c, obs));
 
+    dereg_probe(ctx);
     conc_part(ctx, "conc.threads", false, ctx.scale(300, 6_000), ctx.scale(10, 16));
     conc_part(ctx, "conc.processes", true, ctx.scale(40, 800), ctx.scale(8, 12));
 }
